@@ -20,101 +20,6 @@ section
 variable {K : Type} [Field K] [LinearOrder K] [IsStrictOrderedRing K] [FloorRing K]
 variable {S σ : Type}
 
-/-- the run reached the `else:` branch of the main loop (possibly stopped by the final handle) -/
-def Exit.reachedEnd : Exit → Prop
-  | .final => True
-  | .finalStopped _ => True
-  | _ => False
-
-/-- the number of steps after which the loop condition `t < t_end - eps*dt` fails:
-`⌈(t_end - t_start)/dt - eps⌉` (0 for an empty or negative range) -/
-def finalStepCount (c : Cfg K S σ) : Nat :=
-  (Int.ceil ((c.tEnd - c.tStart) / c.dt - c.eps)).toNat
-
-/-- the state after `n` steps: step `i` is applied at time `t_start + i*dt` -/
-def stateAfter (c : Cfg K S σ) (u0 : S) (n : Nat) : S := stepN c.step c.dt c.tStart n 0 u0
-
-/-- start of the main loop -/
-def initState (c : Cfg K S σ) (u0 : S) (trs : List (Tracker K S σ)) : LState K S σ :=
-  { t := c.tStart, u := u0, steps := 0, trs := trs, trace := [], iters := 0 }
-
-/-- accounting invariant of the loop: time on the step lattice, state = iterate -/
-structure Acc (c : Cfg K S σ) (u0 : S) (st : LState K S σ) : Prop where
-  lattice : st.t = c.tStart + st.steps * c.dt
-  iterate : st.u = stateAfter c u0 st.steps
-
-theorem acc_init (c : Cfg K S σ) (u0 : S) (trs : List (Tracker K S σ)) :
-    Acc c u0 (initState c u0 trs) :=
-  ⟨by simp [initState], rfl⟩
-
-theorem acc_advance (c : Cfg K S σ) (u0 : S) (st : LState K S σ) (h : Acc c u0 st) :
-    Acc c u0 (advance c st) := by
-  obtain ⟨h1, h2⟩ := h
-  have hn := one_le_nsteps st.t (clip (nextAction (mainHandle c st).1) c.tEnd) c.dt
-  constructor
-  · show stepperTime st.t c.dt _ = c.tStart + ((st.steps + _ : Nat) : K) * c.dt
-    rw [stepperTime_eq _ _ _ hn, h1]; push_cast; ring
-  · show stepN c.step c.dt st.t _ 0 st.u = stateAfter c u0 (st.steps + _)
-    unfold stateAfter at h2 ⊢
-    rw [h1, stepN_shift, h2, stepN_add]
-    simp
-
-theorem acc_halted (c : Cfg K S σ) (u0 : S) (st : LState K S σ) (h : Acc c u0 st) :
-    Acc c u0 (halted c st) := ⟨h.1, h.2⟩
-
-theorem loop_acc (c : Cfg K S σ) (u0 : S) (fuel : Nat) (st : LState K S σ) (h : Acc c u0 st) :
-    Acc c u0 (loop c fuel st).1 :=
-  loop_invariant' c (Acc c u0) (fun st h _ _ => acc_advance c u0 st h)
-    (fun st h _ _ _ => acc_halted c u0 st h) fuel st h
-
-/-! ### the final handle and finalize do not touch time, state and step count -/
-
-theorem finalHandle_t (c : Cfg K S σ) (p : LState K S σ × Exit) : (finalHandle c p).1.t = p.1.t := by
-  rcases p with ⟨st, e⟩; cases e <;> rfl
-
-theorem finalHandle_u (c : Cfg K S σ) (p : LState K S σ × Exit) : (finalHandle c p).1.u = p.1.u := by
-  rcases p with ⟨st, e⟩; cases e <;> rfl
-
-theorem finalHandle_steps (c : Cfg K S σ) (p : LState K S σ × Exit) :
-    (finalHandle c p).1.steps = p.1.steps := by
-  rcases p with ⟨st, e⟩; cases e <;> rfl
-
-/-- the main loop itself never produces the `finalStopped` exit -/
-theorem loop_ne_finalStopped (c : Cfg K S σ) (r : StopReq) :
-    ∀ (fuel : Nat) (st : LState K S σ), (loop c fuel st).2 ≠ .finalStopped r := by
-  intro fuel
-  induction fuel with
-  | zero => intro st; simp [loop]
-  | succ n ih =>
-    intro st
-    unfold loop
-    rcases iterOnce_cases c st with ⟨_, e⟩ | ⟨hc, r', hr, e⟩ | ⟨hc, hn, e⟩
-    · rw [e]; simp
-    · rw [e]; simp
-    · rw [e]; exact ih _
-
-theorem finalHandle_reachedEnd (c : Cfg K S σ) (p : LState K S σ × Exit)
-    (hp : ∀ r, p.2 ≠ .finalStopped r) : (finalHandle c p).2.reachedEnd ↔ p.2 = .final := by
-  rcases p with ⟨st, e⟩
-  cases e with
-  | final =>
-    simp only [finalHandle, iff_true]
-    cases (handleAll c.nxt (c.eps * c.dt) st.t st.u 0 st.trs).2.2 <;> trivial
-  | stopped r => simp [finalHandle, Exit.reachedEnd]
-  | finalStopped r => exact absurd rfl (hp r)
-  | fuel => simp [finalHandle, Exit.reachedEnd]
-
-theorem finalHandle_fuel (c : Cfg K S σ) (p : LState K S σ × Exit) :
-    (finalHandle c p).2 = .fuel ↔ p.2 = .fuel := by
-  rcases p with ⟨st, e⟩
-  cases e with
-  | final =>
-    simp only [finalHandle]
-    cases (handleAll c.nxt (c.eps * c.dt) st.t st.u 0 st.trs).2.2 <;> simp
-  | stopped r => simp [finalHandle]
-  | finalStopped r => simp [finalHandle]
-  | fuel => simp [finalHandle]
-
 /-! ### C07: lattice, iterate -/
 
 /-- **lattice_invariant**: the reported final time is `t_start + steps*dt` - on every path
@@ -138,23 +43,6 @@ theorem initial_state_untouched (c : Cfg K S σ) (u0 : S) (trs : List (Tracker K
     (runFuel c u0 trs fuel).initial = u0 := rfl
 
 /-! ### C07: step count -/
-
-theorem clip_le (a : Option K) (tEnd : K) : clip a tEnd ≤ tEnd := by
-  unfold clip
-  cases a with
-  | none => exact le_refl _
-  | some x => simp only; split_ifs with h <;> [exact le_refl _; exact not_lt.mp h]
-
-/-- the loop condition on the lattice: `k` is below the final step count -/
-theorem cond_iff_lt (c : Cfg K S σ) (hdt : 0 < c.dt) (k : Nat) :
-    c.tStart + (k : K) * c.dt < c.tEnd - c.eps * c.dt ↔
-      (k : Int) < Int.ceil ((c.tEnd - c.tStart) / c.dt - c.eps) := by
-  rw [Int.lt_ceil]
-  have e : (c.tEnd - c.tStart) / c.dt - c.eps = (c.tEnd - c.tStart - c.eps * c.dt) / c.dt := by
-    field_simp
-  rw [e, lt_div_iff₀ hdt]
-  push_cast
-  constructor <;> intro h <;> linarith
 
 /-- **progress**: every pass through the loop body takes at least one step -/
 theorem progress (c : Cfg K S σ) (st : LState K S σ) :
